@@ -56,6 +56,142 @@ def ackermannize(terms, name="pow"):
   return out, cong, apps
 
 
+def subst_fix(f, sub, rounds=8):
+  """substitute index terms by their case values and simplify, to a fixpoint (reads whose position depends on earlier
+  comparisons become concrete step by step).  The equalities term == value stay in the guard, so this is only a
+  simplification of an equivalent query."""
+  for _ in range(rounds):
+    g = z3.simplify(z3.substitute(f, *sub))
+    if g.eq(f):
+      break
+    f = g
+  return f
+
+
+HARD_TACTIC = ["simplify", "propagate-values", "ctx-solver-simplify", "smt"]
+
+
+def zero_lemmas(f):
+  """TRUE facts about multiplication, instantiated for the products occurring in f: a product with a zero factor is zero"""
+  acc, vis = [], set()
+
+  def walk(t):
+    if t.get_id() in vis:
+      return
+    vis.add(t.get_id())
+    if z3.is_app_of(t, z3.Z3_OP_MUL):
+      fs = [c for c in t.children() if not z3.is_rational_value(c)]
+      if len(fs) >= 2:
+        acc.append(z3.Implies(z3.Or(*[x == 0 for x in fs]), t == 0))
+    for c in t.children():
+      walk(c)
+
+  walk(f)
+  return acc
+
+
+def unit_literals(g, rounds=10):
+  """literals implied by the conjunction g by unit propagation: [(atom, True/False)]"""
+  lits = {}
+  rest = [z3.simplify(core.zbool(g))]
+  for _ in range(rounds):
+    new, nxt = False, []
+    for f in rest:
+      stack = [f]
+      while stack:
+        t = stack.pop()
+        if z3.is_and(t):
+          stack.extend(t.children())
+        elif z3.is_true(t):
+          continue
+        elif z3.is_not(t) and not (z3.is_and(t.arg(0)) or z3.is_or(t.arg(0)) or z3.is_not(t.arg(0))):
+          if t.arg(0).get_id() not in lits:
+            lits[t.arg(0).get_id()] = (t.arg(0), z3.BoolVal(False))
+            new = True
+        elif z3.is_not(t) and z3.is_or(t.arg(0)):
+          stack.extend([z3.Not(c) for c in t.arg(0).children()])
+        elif z3.is_and(t) or z3.is_or(t) or z3.is_not(t) or z3.is_app_of(t, z3.Z3_OP_ITE) or z3.is_implies(t):
+          nxt.append(t)
+        else:
+          if t.get_id() not in lits:
+            lits[t.get_id()] = (t, z3.BoolVal(True))
+            new = True
+    sub = list(lits.values())
+    rest = [z3.simplify(z3.substitute(f, *sub)) for f in nxt] if sub else nxt
+    if not new:
+      break
+  return list(lits.values())
+
+
+def simplify_under(f, lits, rounds=8):
+  """f with the literals replaced by their truth value, simplified to a fixpoint (equivalent to f wherever they hold)"""
+  f = core.zbool(f) if not isinstance(f, z3.ExprRef) else f
+  if not lits:
+    return f
+  for _ in range(rounds):
+    g = z3.simplify(z3.substitute(f, *lits))
+    if g.eq(f):
+      break
+    f = g
+  return f
+
+
+def _mk_session(ctx, bg, strategy, ms):
+  """strategy: 'smt' (default solver) or 'ctx' (contextual simplification first)"""
+  sess = kh.Session([], ms)
+  if strategy == "ctx":
+    sess.s = z3.TryFor(z3.Then(*HARD_TACTIC), ms).solver()
+  sess.add(*bg)
+  return sess
+
+
+def _portfolio(ctx, bg, name, goal, guard, budget):
+  """-> (QResult, session) of the first conclusive strategy, or the last inconclusive one"""
+  lem = zero_lemmas(goal)
+  plans = [("smt", [], 0.15), ("smt", lem, 0.15), ("ctx", lem, 0.7)]
+  r = sess = None
+  for strat, extra, frac in plans:
+    sess = _mk_session(ctx, list(bg) + extra, strat, max(1000, int(budget * frac)))
+    r = sess.prove(name, goal, guard)
+    if r.status in ("unsat", "sat"):
+      break
+  return r, sess
+
+
+def prove_hard(ctx, bg, name, goal, guard, cases, cover_guard, path=None, **kw):
+  """bilinear goals (Jacobian row . qvel, scatter of CSR rows).  The thread's own path condition (guard of the _efc_row
+  call; `row/emitted` proves guard => path) is first propagated into the goal, which removes the predicated-execution
+  ites.  Then a small portfolio (plain SMT; + zero-product lemmas; + contextual simplification) on the whole query; if
+  all give up, a complete case split over the index patterns (`cases`: name, [(index term, value)], guard), each case
+  substituted into the query (the equalities stay in the guard)."""
+  goal = core.zbool(goal)
+  if path is not None:
+    goal = simplify_under(goal, unit_literals(path))
+    guard = And(guard, path)
+  T = ctx.timeout_ms
+  r, sess = _portfolio(ctx, bg, name, goal, guard, T if not cases else T // 2)
+  if r.status == "unsat":
+    ctx._rec(r)
+    return r
+  if r.status == "sat" or not cases:
+    return ctx.prove(sess, name, goal, guard, **kw)
+  ctx.notes.append(f"{name}: whole query inconclusive; decided by a complete case split over {len(cases)} index patterns")
+  s1 = ctx.session(bg)
+  ctx.prove(s1, name + "/cases-cover", Or(*[And(cg, *[cmp("==", t, v) for t, v in sb]) for _, sb, cg in cases]), cover_guard, **kw)
+  bgz = z3.And(*[core.zbool(x) for x in bg])
+  for cn, sb, cg in cases:
+    sub = [(t, z3.IntVal(v)) for t, v in sb]
+    link = z3.And(*[t == v for t, v in sub]) if sub else z3.BoolVal(True)
+    S = (lambda f: subst_fix(core.zbool(f), sub)) if sub else core.zbool
+    gl, gd = S(goal), z3.And(S(bgz), S(cg), link, S(guard))
+    r, sess = _portfolio(ctx, [], f"{name}[{cn}]", gl, gd, 3 * T)
+    if r.status == "unsat":
+      ctx._rec(r)
+    else:
+      ctx.prove(sess, f"{name}[{cn}]", gl, gd, **kw)
+  return None
+
+
 def pow_facts(si, x):
   """TRUE facts about real pow on the sanitised domain mid in [1e-4, 0.9999], power >= 1 (instances for the terms of the
   impedance curve).  x = |pos|/width."""
@@ -185,6 +321,14 @@ class Builder:
     nnz, adr = kt.post("efc_J_rownnz_out", w, row), kt.post("efc_J_rowadr_out", w, row)
     return [(And(cmp("<", k, nnz), cmp("==", kt.post("efc_J_colind_out", w, 0, arith("+", adr, k)), c)), kt.post("efc_J_out", w, 0, arith("+", adr, k))) for k in range(self.U)]
 
+  def row_dot_qvel(self, w, row, nv):
+    """(row written by this thread) . qvel : dense sum over columns < nv; CSR: sum over stored entries val_k*qvel[colind_k]"""
+    kt = self.kt
+    if not self.is_sparse:
+      return rf.vsum([ite(cmp("<", cc, nv), arith("*", kt.post("efc_J_out", w, row, cc), kt.pre("qvel_in", w, cc)), 0.0) for cc in range(self.U)])
+    nnz, adr = kt.post("efc_J_rownnz_out", w, row), kt.post("efc_J_rowadr_out", w, row)
+    return rf.vsum([ite(cmp("<", k, nnz), arith("*", kt.post("efc_J_out", w, 0, arith("+", adr, k)), kt.pre("qvel_in", w, kt.post("efc_J_colind_out", w, 0, arith("+", adr, k)))), 0.0) for k in range(self.U)])
+
   def any_write(self):
     return Or(*[a.guard for a in self.kt.it.accesses if a.kind.startswith(("W", "A"))])
 
@@ -207,7 +351,7 @@ def goal_builder(spec, pre, post):
   e = spec["env"]
   name, is_sparse = e["builder"], bool(e["spec"][0])
   R = _spec_reader(spec, pre)
-  exp = SIMPLE[name](R) if name in SIMPLE else rf.EXPECTED[name](R)
+  exp = SIMPLE[name](R) if name in SIMPLE else rf.EXPECTED[name](R, is_sparse)
   w = R.tid[0]
   bad = []
   cnt = exp["counter"]
@@ -297,21 +441,17 @@ def check_rows(B, exp, w, nv):
     ctx.prove(sess, f"row{r}/timestep+flags", And(cmp("==", a["timestep"], kt.pre("opt_timestep", arith("%", w, kt.cell("opt_timestep").shape[0]))), cmp("==", a["opt_disableflags"], kt.args["opt_disableflags"])), G, names=names, replay=rp, desc=f"{tag}: row {r}: wrong timestep / disable flags")
     # Jacobian row vs reference, velocity = J.qvel
     c = z3.Int("c")
-    cases = (exp.get("cases") if __import__("os").environ.get("C05_CASES", "1") == "1" else None) or [("", True)]
-    if len(cases) > 1:
-      ctx.prove(sess, f"row{r}/cases-cover", Or(*[cg for _, cg in cases]), G, names=names, replay=rp, desc=f"{tag}: case split of the tendon row patterns is incomplete (harness)")
-      ctx.bound(case_split=f"{len(cases)} column patterns of the tendon Jacobian rows (complete under the bounds; coverage is a query)")
-    for cn, cg in cases:
-      sfx = f"[{cn}]" if cn else ""
-      ctx.prove(sess, f"row{r}/J{sfx}", cmp("==", B.written_J(w, er, c), rf.jsum(exp["J"](r, c))), And(G, cg, c >= 0, cmp("<", c, nv)), names=dict(names, c=c), replay=B.replay(f"row{r}/J", "rows"), desc=f"{tag}: row {r}: Jacobian entry differs from MuJoCo's row")
+    velw = B.row_dot_qvel(w, er, nv)
+    goals = [
+      ("J", cmp("==", B.written_J(w, er, c), rf.jsum(exp["J"](r, c))), And(G, c >= 0, cmp("<", c, nv)), "Jacobian entry differs from MuJoCo's row"),
+      # efc.vel = (written row) . qvel; together with row/J this gives efc.vel = J_MuJoCo . qvel (also the C22 obligation)
+      ("vel=J*qvel", cmp("==", a["vel"], velw), And(G, cmp("<=", nv, B.U)), "efc.vel differs from (Jacobian row written by the same thread) * qvel"),
+    ]
     if B.is_sparse:
       nnz, adr = kt.post("efc_J_rownnz_out", w, er), kt.post("efc_J_rowadr_out", w, er)
-      ctx.prove(sess, f"row{r}/csr-block", And(cmp(">=", nnz, 0), cmp("<=", nnz, B.U), cmp(">=", adr, B.a0), cmp("<=", arith("+", adr, nnz), arith("+", B.a0, B.nn))), G, names=names, replay=rp, desc=f"{tag}: row {r}: CSR row lies outside the non-zero block this thread allocated")
-    # efc.vel = (written row) . qvel; together with row/J this gives efc.vel = J_MuJoCo . qvel (also the C22 obligation)
-    velw = rf.vsum([ite(And(cmp("<", cc, nv), cnd), arith("*", cf, kt.pre("qvel_in", w, cc)), 0.0) for cc in range(B.U) for cnd, cf in B.written_Jt(w, er, cc)])
-    for cn, cg in cases:
-      sfx = f"[{cn}]" if cn else ""
-      ctx.prove(sess, f"row{r}/vel=J*qvel{sfx}", cmp("==", a["vel"], velw), And(G, cg, cmp("<=", nv, B.U)), names=names, replay=rp, desc=f"{tag}: row {r}: efc.vel differs from (Jacobian row written by the same thread) * qvel")
+      goals.append(("csr-block", And(cmp(">=", nnz, 0), cmp("<=", nnz, B.U), cmp(">=", adr, B.a0), cmp("<=", arith("+", adr, nnz), arith("+", B.a0, B.nn))), G, "CSR row lies outside the non-zero block this thread allocated"))
+    for gn, goal, guard, txt in goals:
+      prove_hard(ctx, bg, f"row{r}/{gn}", goal, guard, exp.get("cases"), And(G, cmp("<=", nv, B.U)), path=g, names=dict(names, c=c), replay=B.replay(f"row{r}/{gn}", "rows"), desc=f"{tag}: row {r}: {txt}")
     # final state of the row = what _efc_row stored (+ the documented correction)
     for f in ("type", "id", "pos", "margin", "vel", "frictionloss", "D"):
       src = {"type": a["type"], "id": a["id"], "pos": arith("+", a["pos_aref"], a["margin"]), "margin": a["margin"], "vel": a["vel"], "frictionloss": a["frictionloss"], "D": a["D!"]}[f]
@@ -322,16 +462,212 @@ def check_rows(B, exp, w, nv):
   return sess, bg
 
 
-def unit_rows(builder, spec, U):
+# ------------------------------------------------------------------------------------------------ contacts
+
+
+def _cone(elliptic):
+  from mujoco_warp._src import types
+
+  return types.ConeType.ELLIPTIC if elliptic else types.ConeType.PYRAMIDAL
+
+
+def goal_contact_init(spec, pre, post):
+  import numpy as np
+
+  e = spec["env"]
+  R = _spec_reader(spec, pre)
+  conid = R.tid[0]
+  in_range, ctype, act, pos = rf.contact_active(R, conid, bool(e["adhesion"]))
+  A = bool(in_range and ctype and act)
+  w = int(pre["worldid_in"][conid]) if conid < len(pre["worldid_in"]) else 0
+  ndim = int(rf.contact_ndim(bool(e["elliptic"]), int(R.rd("condim_in", conid)))) if A else 0
+  e0 = int(pre["nefc_out"][w])
+  njmax = int(R.scalar("njmax_in"))
+  bad = []
+  got = int(post["nefc_out"][w] - pre["nefc_out"][w])
+  if got != ndim:
+    bad.append(f"contact {conid}: nefc advanced by {got}, MuJoCo rows: {ndim}")
+  adr = post["contact_efc_address_out"][conid]
+  for k in range(min(ndim, adr.shape[0])):
+    want = e0 + k if e0 + k < njmax else -1
+    if int(adr[k]) != want:
+      bad.append(f"efc_address[{conid},{k}] = {int(adr[k])}, expected {want}")
+    elif want >= 0 and int(post["efc_id_out"][w, want]) != conid:
+      bad.append(f"efc_address[{conid},{k}] = {want} but efc.id[{want}] = {int(post['efc_id_out'][w, want])}")
+  for k in range(ndim, adr.shape[0]):
+    if int(adr[k]) != int(pre["contact_efc_address_out"][conid, k]):
+      bad.append(f"efc_address[{conid},{k}] (beyond the contact's rows) changed to {int(adr[k])}")
+  return (not bad), "; ".join(bad) or "addresses agree with the reference"
+
+
+def unit_contact_init(elliptic, is_sparse, newton, flg_adhesion, U):
   def run(ctx):
     from mujoco_warp._src import constraint
 
-    B = Builder(ctx, builder, spec, U)
+    k = constraint._efc_contact_init(_cone(elliptic), is_sparse, newton, flg_adhesion)
+    loc = f"mujoco_warp._src.constraint:_efc_contact_init(types.ConeType({int(_cone(elliptic))}), {is_sparse}, {newton}, {flg_adhesion})"
+    ctx.encode(k)
+    maxdim = (U if elliptic else (U // 2 + 1))
+    ctx.bound(unroll=U, max_condim=maxdim, note=f"rows per contact <= {U}: condim <= {maxdim}")
+    ctx.assume("thread's own array accesses are in bounds (C17)", "loop trip counts <= unroll bound", f"1 <= condim <= {maxdim}", "floats are exact reals")
+    njmax, nnzmax = z3.Int("njmax_in"), z3.Int("njmax_nnz_in")
+    kt = lib.kernel_thread(k, scalars={"njmax_in": njmax, "njmax_nnz_in": nnzmax}, unroll=U, cap=max(6, U))
+    R = rf.SymReader(kt, U)
+    conid = kt.tid
+    in_range, ctype, act, pos = rf.contact_active(R, conid, flg_adhesion)
+    A = And(in_range, ctype, act)
+    condim = kt.pre("condim_in", conid)
+    ndim = rf.contact_ndim(elliptic, condim)
+    w = kt.pre("worldid_in", conid)
+    e0, n = kt.pre("nefc_out", w), kt.atomic_total("nefc_out", w)
+    bg = kt.bg + [njmax >= 0, nnzmax >= 0, e0 >= 0, condim >= 1, condim <= maxdim]
+    sess = ctx.session(bg)
+    ctx.reach(sess, "twin:active-contact", And(A, cmp("<", arith("+", e0, 1), njmax)))
+    env = {"elliptic": elliptic, "adhesion": flg_adhesion, "U": U}
+    rp = lambda nm: lib.make_replay(ctx, kt, loc, nm, "goal", goal="checks.c05:goal_contact_init", env=env)
+    names = {"conid": conid, "condim": condim, "nefc0": e0, "njmax": njmax, "world": w}
+    tag = f"_efc_contact_init({'elliptic' if elliptic else 'pyramidal'}, sparse={is_sparse}, adhesion={flg_adhesion})"
+    ctx.prove(sess, "count", cmp("==", n, ite(A, ndim, 0)), True, names=names, replay=rp("count"), desc=f"{tag}: nefc does not advance by the number of rows of the contact (condim / 2*(condim-1)), or advances for an inactive contact")
+    wr = Or(*[a.guard for a in kt.it.accesses if a.kind.startswith(("W", "A"))])
+    ctx.prove(sess, "inactive-writes-nothing", Not(wr), Not(A), names=names, replay=rp("inactive"), desc=f"{tag}: a contact outside nacon / not a constraint contact / outside the margin writes to Data")
+    kk = z3.Int("k")
+    adr = kt.post("contact_efc_address_out", conid, kk)
+    row = arith("+", e0, kk)
+    inrow = And(A, kk >= 0, cmp("<", kk, ndim), kt.inshape("contact_efc_address_out", conid, kk))
+    ctx.prove(sess, "address/value", cmp("==", adr, ite(cmp("<", row, njmax), row, -1)), inrow, names=dict(names, k=kk), replay=rp("address"), desc=f"{tag}: efc_address[c, k] is not nefc0 + k (or -1 beyond njmax)")
+    ctx.prove(sess, "address/points-at-own-row", Implies(cmp(">=", adr, 0), cmp("==", kt.post("efc_id_out", w, adr), conid)), inrow, names=dict(names, k=kk), replay=rp("address-id"), desc=f"{tag}: efc_address[c, k] >= 0 but efc.id of that row is not c")
+    ctx.prove(sess, "address/beyond-ndim-untouched", Not(kt.written("contact_efc_address_out", conid, kk)), And(kk >= ndim, kt.inshape("contact_efc_address_out", conid, kk)), names=dict(names, k=kk), replay=rp("address-beyond"), desc=f"{tag}: efc_address entries beyond the contact's rows are written")
+    if is_sparse:
+      a0, nn = kt.pre("efc_nnz_out", w), kt.atomic_total("efc_nnz_out", w)
+      fits = And(cmp("<", row, njmax), cmp("<=", arith("+", a0, nn), nnzmax), a0 >= 0)
+      nnz, ra = kt.post("efc_J_rownnz_out", w, row), kt.post("efc_J_rowadr_out", w, row)
+      ctx.prove(sess, "csr/blocks", And(cmp(">=", nnz, 0), cmp("==", arith("*", nnz, ndim), nn), cmp("==", ra, arith("+", a0, arith("*", kk, nnz)))), And(inrow, fits), names=dict(names, k=kk), replay=rp("csr"), desc=f"{tag}: CSR row k of the contact is not the k-th block of the non-zeros the thread allocated")
+
+  return (f"contact/init/{'elliptic' if elliptic else 'pyramidal'}-{'sparse' if is_sparse else 'dense'}{'-adhesion' if flg_adhesion else ''}", run)
+
+
+def goal_contact_update(spec, pre, post):
+  e = spec["env"]
+  R = _spec_reader(spec, pre)
+  ell, adh = bool(e["elliptic"]), bool(e["adhesion"])
+  exp = rf.expected_contact_update(R, ell, adh, Drow=None)
+  bad = []
+  if not exp["act"]:
+    return True, "thread is inactive in the reference (nothing compared)"
+  w, er = int(exp["worldid"]), int(exp["efcid"])
+  row = exp["rows"][0]
+  flags = int(R.scalar("opt_disableflags"))
+  ts = float(pre["opt_timestep"][w % pre["opt_timestep"].shape[0]])
+  vel = float(pre["efc_Jqvel_in"][w, er])
+  full = rf.ref_row((flags & rf.REFSAFE_BIT) == 0, ts, row["pos_aref"], row["pos_imp"], row["invweight"], row["solref"], row["solimp"], row["margin"], vel, 0.0, row["type"], row["id"])
+  if adh:
+    exp2 = rf.expected_contact_update(R, ell, adh, Drow=full["D"])
+    full["aref"] = full["aref"] + exp2["rows"][0]["aref_extra"]
+  for f in e["fields"]:
+    got = post[f"efc_{f}_out"][w, er]
+    if not lib.approx(got, full[f], rtol=5e-3, atol=1e-4):
+      bad.append(f"contact {R.tid[0]} dim {R.tid[1]} row {er}: efc.{f} = {got} vs MuJoCo reference {full[f]}")
+  return (not bad), "; ".join(bad) or "row agrees with the reference"
+
+
+def unit_contact_update(elliptic, flg_adhesion):
+  def run(ctx):
+    from mujoco_warp._src import constraint
+
+    rows = []
+    k = constraint._efc_contact_update(_cone(elliptic), flg_adhesion)
+    loc = f"mujoco_warp._src.constraint:_efc_contact_update(types.ConeType({int(_cone(elliptic))}), {flg_adhesion})"
+    ctx.encode(k, constraint._efc_row)
+    ctx.bound(max_condim=6, note="dimid symbolic, condim in 1..6")
+    ctx.assume(
+      "thread's own array accesses are in bounds (C17)",
+      "floats are exact reals",
+      "`_efc_row` is replaced by its recording contract",
+      "1 <= condim <= 6; friction coefficients > 0 (contact_params clamps to MJ_MINMU)",
+      "contact.efc_address is what _efc_contact_init wrote (>= 0 only for assembled rows)",
+      "D of friction rows: mujoco_warp scales diagApprox before the max(mjMINVAL, .) clamp, MuJoCo scales R after it; equal whenever the clamp does not engage (R >= mjMINVAL), which is assumed",
+    )
+    kt = lib.kernel_thread(k, unroll=3, cap=8, interp_kw={"summaries": {"_efc_row": row_summary(rows)}})
+    R = rf.SymReader(kt, 3)
+    conid, dimid = kt.tid
+    if len(rows) != 1:
+      ctx.error(f"_efc_contact_update: {len(rows)} _efc_row call sites")
+      return
+    g, a = rows[0]
+    exp = rf.expected_contact_update(R, elliptic, flg_adhesion, Drow=a["D!"])
+    row = exp["rows"][0]
+    condim = kt.pre("condim_in", conid)
+    fri = R.rdv("friction_in", conid)
+    bg = kt.bg + [condim >= 1, condim <= 6] + [f > 0 for f in fri]
+    sess = ctx.session(bg)
+    act = exp["act"]
+    ctx.reach(sess, "twin:active-row", act)
+    tag = f"_efc_contact_update({'elliptic' if elliptic else 'pyramidal'}, adhesion={flg_adhesion})"
+    names = {"conid": conid, "dimid": dimid, "condim": condim}
+    env = {"elliptic": elliptic, "adhesion": flg_adhesion}
+    rp = lambda nm, fields: lib.make_replay(ctx, kt, loc, nm, "goal", goal="checks.c05:goal_contact_update", env=dict(env, fields=fields))
+    allf = ["type", "id", "pos", "margin", "D", "aref", "vel"]
+    ctx.prove(sess, "emitted-iff-active", g == core.zbool(act), True, names=names, replay=rp("emitted", allf), desc=f"{tag}: a row is assembled although the contact dimension has no address / is beyond the cone's rows, or an addressed row is skipped")
+    wr = Or(*[x.guard for x in kt.it.accesses if x.kind.startswith(("W", "A"))])
+    ctx.prove(sess, "inactive-writes-nothing", Not(wr), Not(act), names=names, replay=rp("inactive", allf), desc=f"{tag}: thread without an assembled row writes to Data")
+    ctx.prove(sess, "row/efcid+world", And(cmp("==", a["efcid"], exp["efcid"]), cmp("==", a["worldid"], exp["worldid"])), act, names=names, replay=rp("where", allf), desc=f"{tag}: row written to another (world, row) than contact.efc_address / contact.worldid")
+    for f, flds in (("pos_aref", ["pos", "aref"]), ("pos_imp", ["D", "aref"]), ("invweight", ["D"]), ("type", ["type"]), ("id", ["id"]), ("frictionloss", ["D"])):
+      ctx.prove(sess, f"row/{f}", cmp("==", a[f], row[f]), act, names=names, replay=rp(f, flds), desc=f"{tag}: {f} handed to _efc_row differs from MuJoCo's contact row")
+    if elliptic:
+      ctx.prove(sess, "row/margin(normal)", cmp("==", a["margin"], row["margin"]), And(act, Not(row["friction_row"])), names=names, replay=rp("margin", ["margin", "pos"]), desc=f"{tag}: wrong margin on the normal row")
+      ctx.reach(sess, "twin:elliptic-friction-row-with-margin", And(act, row["friction_row"], cmp("!=", row["margin_mjw"], 0.0)))
+      ctx.prove(sess, "row/margin(elliptic-friction)", cmp("==", a["margin"], row["margin"]), And(act, row["friction_row"]), names=names, replay=rp("margin-friction", ["margin", "pos"]), desc=f"{tag}: friction rows of an elliptic contact get efc.pos = efc.margin = includemargin; MuJoCo stores 0 and 0")
+    else:
+      ctx.prove(sess, "row/margin", cmp("==", a["margin"], row["margin"]), act, names=names, replay=rp("margin", ["margin", "pos"]), desc=f"{tag}: wrong margin")
+    ctx.prove(sess, "row/solref", And(*[cmp("==", x, y) for x, y in zip(a["solref"].c, row["solref"])]), act, names=names, replay=rp("solref", ["aref"]), desc=f"{tag}: wrong solref (solreffriction applies to the friction rows of elliptic contacts when non-zero)")
+    ctx.prove(sess, "row/solimp", And(*[cmp("==", x, y) for x, y in zip(a["solimp"].c, row["solimp"])]), act, names=names, replay=rp("solimp", ["D", "aref"]), desc=f"{tag}: wrong solimp")
+    ctx.prove(sess, "row/vel", cmp("==", a["vel"], exp["vel"]), act, names=names, replay=rp("vel", ["vel"]), desc=f"{tag}: efc.vel is not the J*qvel the Jacobian kernel stored for this row")
+    wm = arith("%", exp["worldid"], kt.cell("opt_timestep").shape[0])
+    ctx.prove(sess, "row/timestep+flags", And(cmp("==", a["timestep"], kt.pre("opt_timestep", wm)), cmp("==", a["opt_disableflags"], kt.args["opt_disableflags"])), act, names=names, replay=rp("ts", ["aref"]), desc=f"{tag}: wrong timestep / disable flags")
+    w, er = exp["worldid"], exp["efcid"]
+    for f in ("type", "id", "pos", "margin", "vel", "frictionloss", "D"):
+      src = {"type": a["type"], "id": a["id"], "pos": arith("+", a["pos_aref"], a["margin"]), "margin": a["margin"], "vel": a["vel"], "frictionloss": a["frictionloss"], "D": a["D!"]}[f]
+      ctx.prove(sess, f"row/final/{f}", cmp("==", kt.post(f"efc_{f}_out", w, er), src), act, names=names, replay=rp("final", allf), desc=f"{tag}: efc.{f} is modified after _efc_row")
+    s2 = ctx.session(bg, tactic="qfnra-nlsat") if False else sess
+    ctx.prove(s2, "row/final/aref", cmp("==", kt.post("efc_aref_out", w, er), arith("+", a["aref!"], row["aref_extra"])), And(act, cmp(">", a["D!"], 0.0)) if flg_adhesion else act, names=names, replay=rp("aref", ["aref"]), desc=f"{tag}: efc.aref differs from the reference acceleration (+ adhesion*R shared by the rows of the contact)")
+
+  return (f"contact/update/{'elliptic' if elliptic else 'pyramidal'}{'-adhesion' if flg_adhesion else ''}", run)
+
+
+def jac_summaries():
+  """contracts of support.jac_dof / jac_dot_dof on the code side: the SAME functions the reference uses (ref_c05.sym_jac)"""
+
+  def jac_dof(it, fr, args):
+    parent, rootid, dof_bodyid, isanc, com, cdof, point, bodyid, dofid, worldid = args
+    jp, jr = rf.sym_jac(isanc.cell.get((bodyid, dofid)), rootid.cell.get((bodyid,)), point.c, dofid, worldid)
+    return (core.Vec(jp, (3,), "f"), core.Vec(jr, (3,), "f"))
+
+  def jac_dot_dof(it, fr, args):
+    parent, rootid, jnt_type, jnt_dofadr, dof_bodyid, dof_jntid, isanc, com, cdof, cvel, cdof_dot, point, bodyid, dofid, worldid = args
+    cv = [cvel.cell.get((worldid, bodyid), k) for k in range(6)]
+    jp, jr = rf.sym_jacdot(isanc.cell.get((bodyid, dofid)), rootid.cell.get((bodyid,)), cv, point.c, dofid, worldid)
+    return (core.Vec(jp, (3,), "f"), core.Vec(jr, (3,), "f"))
+
+  return {"jac_dof": jac_dof, "jac_dot_dof": jac_dot_dof}
+
+
+TREE = {"_equality_connect": rf.expected_equality_connect}
+
+
+def unit_rows(builder, spec, U):
+  def run(ctx):
+    from mujoco_warp._src import constraint, support
+
+    tree = builder in TREE
+    B = Builder(ctx, builder, spec, U, summaries=jac_summaries() if tree else None)
+    if tree:
+      ctx.assume("support.jac_dof / jac_dot_dof are replaced by their contract: zero unless body_isdofancestor[body, dof], else an uninterpreted function of (point, tree root, [cvel of the body], dof, world); jac_dof's definition is decided by C22")
+      ctx.encode(support.jac_dof, support.jac_dot_dof)
     ctx.encode(constraint._efc_row)
     ctx.bound(unroll=U, shape_cap=6, note=f"nv, tendon row length and loops <= {U}; array dims <= 6")
     ctx.assume("thread's own array accesses are in bounds (C17)", "loop trip counts <= unroll bound", "rows fit: nefc0 + nrows <= njmax and (sparse) nnz0 + nnz <= njmax_nnz (overflow is C16)", "floats are exact reals", "`_efc_row` is replaced by its recording contract (its body is decided by the efc_row units)")
     R = rf.SymReader(B.kt, U)
-    exp = SIMPLE[builder](R)
+    exp = TREE[builder](R, spec[0]) if tree else SIMPLE[builder](R)
     check_rows(B, exp, B.w, B.kt.args["nv"])
 
   return (f"rows/{builder}/{'sparse' if spec[0] else 'dense'}-{'newton' if spec[1] else 'cg'}", run)
@@ -431,9 +767,17 @@ def main(tier, seed, only=None):
   units = [("refcheck", unit_refcheck), unit_efc_row(True), unit_efc_row(False)]
   specs = [(False, True), (True, True)] + ([(True, False)] if tier == "thorough" else [])
   U = int(__import__("os").environ.get("C05_U", 3 if tier == "quick" else 4))
-  for b in SIMPLE:
+  for b in list(SIMPLE) + list(TREE):
     for sp in specs:
-      units.append(unit_rows(b, sp, U))
+      units.append(unit_rows(b, sp, 2 if b == "_equality_tendon" and (sp[0] or tier == "quick") else U))
+  UC = 6 if tier == "quick" else 10
+  for ell in (False, True):
+    for adh in (False, True):
+      units.append(unit_contact_update(ell, adh))
+      for sp in (False, True):
+        if adh and sp and tier == "quick":
+          continue
+        units.append(unit_contact_init(ell, sp, True, adh, UC))
   if only:
     units = [u for u in units if any(o in u[0] for o in only)]
   return report.run_check(PID, units, tier, seed)
